@@ -314,6 +314,21 @@ func (e *Engine) fromDef(ds Site, d def, name string, depth int) []Case {
 	switch n := d.node.(type) {
 	case *ast.AssignStmt:
 		if n.Tok != token.ASSIGN && n.Tok != token.DEFINE {
+			// x op= y is x = x op y when the previous value of x has one origin
+			ops := map[token.Token]token.Token{token.ADD_ASSIGN: token.ADD, token.SUB_ASSIGN: token.SUB, token.MUL_ASSIGN: token.MUL,
+				token.QUO_ASSIGN: token.QUO, token.REM_ASSIGN: token.REM, token.AND_ASSIGN: token.AND, token.OR_ASSIGN: token.OR,
+				token.XOR_ASSIGN: token.XOR, token.SHL_ASSIGN: token.SHL, token.SHR_ASSIGN: token.SHR, token.AND_NOT_ASSIGN: token.AND_NOT}
+			if op, ok := ops[n.Tok]; ok && len(n.Lhs) == 1 && len(n.Rhs) == 1 {
+				if id, isId := ast.Unparen(n.Lhs[0]).(*ast.Ident); isId {
+					prev := e.values(ds, id, depth+1)
+					if len(prev) == 1 && prev[0].Unknown == "" && !prev[0].Zero && prev[0].Expr != nil && (prev[0].Call == nil || prev[0].Result == 0) {
+						var sites []Site
+						rhs := e.resolve(ds, n.Rhs[0], depth+1, &sites)
+						c := Case{Expr: &ast.BinaryExpr{X: &ast.ParenExpr{X: prev[0].Expr}, Op: op, Y: rhs}, Sites: append(append(prev[0].Sites, sites...), ds)}
+						return []Case{c}
+					}
+				}
+			}
 			return unknown(ds, name+" is modified in place ("+n.Tok.String()+")")
 		}
 		if len(n.Lhs) == len(n.Rhs) {
@@ -584,6 +599,29 @@ func (e *Engine) resolve(s Site, x ast.Expr, depth int, sites *[]Site) ast.Expr 
 			return v
 		}
 		return &ast.TypeAssertExpr{X: a, Type: v.Type}
+	case *ast.CompositeLit:
+		elts := make([]ast.Expr, len(v.Elts))
+		changed := false
+		for i, el := range v.Elts {
+			if kv, ok := el.(*ast.KeyValueExpr); ok {
+				nv := e.resolve(s, kv.Value, depth+1, sites)
+				if nv != kv.Value {
+					changed = true
+					elts[i] = &ast.KeyValueExpr{Key: kv.Key, Colon: kv.Colon, Value: nv}
+				} else {
+					elts[i] = el
+				}
+				continue
+			}
+			elts[i] = e.resolve(s, el, depth+1, sites)
+			if elts[i] != el {
+				changed = true
+			}
+		}
+		if !changed {
+			return v
+		}
+		return &ast.CompositeLit{Type: v.Type, Lbrace: v.Lbrace, Elts: elts, Rbrace: v.Rbrace}
 	}
 	return x
 }
